@@ -106,6 +106,8 @@ def compile_src(src, flags=(), name='ut', want_c=True, use_src_args=True, timeou
             finally:
                 N._verif_phase_observer = None
             c.pre, c.post = snaps.get('converted'), snaps.get('optimized')
+            c.cfg = {f.name: bool(N.ProgramData.do(f)) for f in N.ProgramFlag}
+            c.opts = {o.name: N.ProgramData.option(o) for o in N.ProgramOption}
             c.dfa = c.dctx.dfa
             c.spec = c.pctx.state_object_spec
             if want_c:
@@ -178,7 +180,7 @@ def lower_to_ir(header, source, name='ut', extra=''):
                             '-o', os.path.join(d, name + '.ll'), os.path.join(d, name + '.c')], capture_output=True, text=True)
         if r.returncode != 0:
             return None, r.stderr[:1500]
-        r2 = subprocess.run(['opt', '-mem2reg', '-S', os.path.join(d, name + '.ll'), '-o', os.path.join(d, name + '.m.ll')],
+        r2 = subprocess.run(['opt', '-mem2reg', '-simplifycfg', '-S', os.path.join(d, name + '.ll'), '-o', os.path.join(d, name + '.m.ll')],
                             capture_output=True, text=True)
         if r2.returncode != 0:
             return None, r2.stderr[:1500]
